@@ -265,12 +265,51 @@ def random_input(data, note):
 # ---------------------------------------------------------------------------
 
 @st.composite
+def exotic_input(draw):
+    """damage that makes the decoder fail with something else than a range-check AssertionError:
+    IndexError (valid word count > 9), AttributeError (undersized PCE), RecursionError (deeply nested JSON
+    user data), UnicodeDecodeError (non UTF-8 text), KeyError / TypeError / ValueError candidates"""
+    which = draw(st.sampled_from(['wordcount', 'wordcount', 'pce', 'deep-json', 'utf8', 'bad-json-type', 'lp-name']))
+    ph = M.default_ph(creator=ord('O'), eid=0x50000001)
+    if which == 'wordcount':
+        src = M.default_src(wc=draw(st.one_of(st.integers(10, 255), st.sampled_from([10, 11, 0x10, 0x80, 0xFF]))))
+        return M.encode(M.minimal_pel([src], ph=ph))
+    if which == 'pce':
+        c = {'flags': 0x28, 'prio': 0x48, 'loc': b'', 'fru': {'flags': 0x18, 'pn': b'12345678', 'ccin': b'', 'sn': b''},
+             'pce': {'flags': 0, 'mtm': b'9105-22A', 'sn': b'SN1234567890', 'name': b'pce\0'}, 'mru': None}
+        pel = M.minimal_pel([M.default_src(flags=1, callouts={'ssid': 0xC0, 'ssflags': 0, 'list': [c]})], ph=ph)
+        data = bytearray(M.encode(pel))
+        off = M.offsets(pel)[2] + 84 + 4 + len(M.enc_fru(c['fru']))
+        data[off + 2] = draw(st.integers(0, 23))
+        return bytes(data)
+    if which == 'deep-json':
+        n = draw(st.sampled_from([1500, 5000, 20000]))
+        ud = {'k': 'UD', 'ver': 1, 'sub': 1, 'comp': 0x2000, 'data': b'[' * n + b']' * n}
+        return M.encode(M.minimal_pel([ud], ph=ph))
+    if which == 'utf8':
+        pel = M.minimal_pel([M.default_src()], ph=ph)
+        data = bytearray(M.encode(pel))
+        data[draw(st.sampled_from([24, M.offsets(pel)[2] + 48, M.offsets(pel)[2] + 50]))] = draw(st.sampled_from([0x80, 0xFF, 0xC0]))
+        return bytes(data)
+    if which == 'bad-json-type':
+        ud = {'k': 'UD', 'ver': 1, 'sub': 1, 'comp': 0x2000,
+              'data': draw(st.sampled_from([b'NaN', b'{"a": 1', b'\xff\xfe', b'"\\ud800"', b'1e99999', b'-']))}
+        return M.encode(M.minimal_pel([ud], ph=ph))
+    lp = {'k': 'LP', 'ver': 1, 'sub': 0, 'comp': 0, 'pid': 1, 'logid': 2, 'name': b'\xff\xfe\x00\x00',
+          'targets': [1, 2, 3], 'pad': 0}
+    return M.encode(M.minimal_pel([lp], ph=ph))
+
+
+@st.composite
 def cli_case(draw, tier):
-    kind = draw(st.sampled_from(['prefix', 'prefix', 'corrupt', 'corrupt', 'random', 'intact']))
+    kind = draw(st.sampled_from(['prefix', 'prefix', 'corrupt', 'corrupt', 'random', 'intact', 'exotic', 'exotic']))
     c = {'kind': kind, 'runner': draw(st.sampled_from(['forked', 'forked', 'forked', 'real', 'real-O'])),
-         'hex': draw(st.integers(0, 5)) == 0}
+         'hex': draw(st.integers(0, 5)) == 0, 'by_id': draw(st.integers(0, 3)) == 0,
+         'skip_plugins': draw(st.integers(0, 3)) == 0}
     if kind == 'random':
         c['data'] = draw(random_bytes)
+    elif kind == 'exotic':
+        c['data'] = draw(exotic_input())
     else:
         cc = draw(corruption_case(tier))
         if kind == 'prefix':
@@ -315,7 +354,7 @@ def check_cli_result(r, what, must_reject, hexmode, data):
 
 @PROP.given('cli', lambda tier: cli_case(tier), quick=300, thorough=12000, shards_quick=8)
 def cli_check(case, note):
-    if case['kind'] == 'random':
+    if case['kind'] in ('random', 'exotic'):
         data = case['data']
         must_reject = False
     else:
@@ -323,10 +362,13 @@ def cli_check(case, note):
         must_reject = case['kind'] == 'prefix'
     d = tempfile.mkdtemp(prefix='c05')
     try:
-        path = os.path.join(d, 'x.pel')
+        path = os.path.join(d, 'x_50000001.pel')
         with open(path, 'wb') as f:
             f.write(data)
-        argv = ['-f', path] + (['-x'] if case['hex'] else [])
+        # the same single-file barrier serves --file and --id
+        argv = (['-p', d, '-i', '50000001'] if case.get('by_id') else ['-f', path]) + (['-x'] if case['hex'] else [])
+        if case.get('skip_plugins'):
+            argv.append('-P')
         if case['runner'] == 'forked':
             r = cli.forked(argv, timeout=40)
             what = 'peltool -f'
@@ -338,3 +380,44 @@ def cli_check(case, note):
         note.nontrivial = case['kind'] != 'intact'
     finally:
         shutil.rmtree(d, ignore_errors=True)
+
+
+# ---------------------------------------------------------------------------
+# coverage-guided bytes (atheris), thorough tier
+# ---------------------------------------------------------------------------
+
+def seed_corpus(seed, n=48):
+    """encoded well-formed PELs as the starting corpus"""
+    import hypothesis
+    from hypothesis import given, settings, HealthCheck, Phase
+    out = []
+
+    @hypothesis.seed(seed)
+    @settings(max_examples=n, database=None, deadline=None, phases=[Phase.generate],
+              suppress_health_check=list(HealthCheck))
+    @given(S.pel_model(max_sections=5))
+    def collect(pel):
+        out.append(M.encode(pel))
+    collect()
+    return out
+
+
+@PROP.custom('coverage-guided')
+def coverage_guided(ctx):
+    from .. import fuzz
+    from ..core import FacetResult
+    if ctx.tier == 'quick':
+        r = FacetResult('coverage-guided')
+        r.notes.append('coverage-guided campaign runs in the thorough tier only')
+        return r
+    return fuzz.campaign('coverage-guided', 'pel', seed_corpus(ctx.seed), runs=400000, seed=ctx.seed, jobs=6,
+                         with_O=True, sig_prefix='C05.fuzz')
+
+
+def replay_coverage_guided(case):
+    data = case['data']
+    if case.get('optimize'):
+        r = oworker().request({'op': 'one', 'data': data.hex(), 'plugins': True}, timeout=60)
+        check_outcome(r, data, 'python -O')
+    else:
+        check_outcome(c05lib.outcome(data, True), data, 'assertions on')
